@@ -64,10 +64,19 @@ RECURSIVE NestedChecks(_, _, _)
 NestedChecks(ns, ln, i) ==
   IF i > Len(ns) THEN <<>>
   ELSE Classify(ns[i], ln, "C20", "C20", <<"crash inside recovery after its I/O call", ns[i].after>>) \o NestedChecks(ns, ln, i + 1)
+(* Known finding KF-C01-torn-page-inside-file: a page write that is torn INSIDE the db file (it does not extend the  *)
+(* file; here: into a hole left by an earlier write of a higher page) leaves a page whose header and page LSN are new *)
+(* and whose row bytes are old / zero.  The read is not short, nothing marks the page as incomplete, recovery trusts  *)
+(* the LSN and skips the redo of its records.  (A torn write that extends the file is recognised by the short read    *)
+(* and judged strictly.)  Signature: a torn variant of a page write with a negative cut.                              *)
+KfTorn(vs) == [i \in DOMAIN vs |-> [vs[i] EXCEPT !.kf = "KF-C01-torn-page-inside-file"]]
 RECURSIVE TornChecks(_, _, _)
 TornChecks(ts, ln, i) ==
   IF i > Len(ts) THEN <<>>
-  ELSE Classify(ts[i], ln, "C01", "C02", <<"crash inside this log write, torn at byte", ts[i].cut>>) \o TornChecks(ts, ln, i + 1)
+  ELSE (IF ts[i].cut < 0
+          THEN KfTorn(Classify(ts[i], ln, "C01", "C02", <<"crash inside this page write, torn inside the file at byte", -ts[i].cut>>))
+          ELSE Classify(ts[i], ln, "C01", "C02", <<"crash inside this write, torn at byte", ts[i].cut>>))
+       \o TornChecks(ts, ln, i + 1)
 
 ProbeChecks(e, ln) ==
   IF ~Has(e, "probe") THEN <<>>
